@@ -76,6 +76,7 @@ type Exec struct {
 	nimm          int
 	beforeSeen    map[string]bool
 	siteOrd       map[string][]token.Pos
+	nonNilPending []nonNilWrite
 	overflow      bool      // contract option: machine-integer overflow of + - * is an obligation
 	curPos        token.Pos // position of the instruction being executed (for safety obligations)
 	acqSnap       map[string]*State
@@ -783,6 +784,7 @@ func (ex *Exec) run() {
 	ex.obsSeen = map[string]bool{}
 	ex.beforeSeen = map[string]bool{}
 	ex.siteOrd = nil
+	ex.nonNilPending = nil
 	ex.wholeWrites = map[string]bool{}
 	ex.globalWrites = map[string]bool{}
 	ex.nsafe = map[string]int{}
